@@ -67,7 +67,11 @@ func (c15) Gen(r *sim.Rand, tier string, run uint64) *sim.Scenario {
 		l := sim.Op{K: "listing", N: []int64{int64(r.Intn(2)), int64(plan), int64(k)}}
 		ops = append(ops[:at], append([]sim.Op{l}, ops[at:]...)...)
 	}
-	if set, base := genBase(r, size+8); set {
+	if r.Chance(1, 12) && size > 2 {
+		// a base just below the end of a bank: addresses run across $xx:FFFF
+		base := int64(r.Intn(255))<<16 | (0x10000 - int64(r.Range(1, size-1)))
+		ops = append([]sim.Op{{K: "setbase", N: []int64{base}}}, ops...)
+	} else if set, base := genBase(r, size+8); set {
 		at := 0
 		if r.Chance(1, 4) {
 			// SetBase after labels/comments but before the first emission
